@@ -73,3 +73,35 @@ theorem sum_Icc_mul_left {R : Type*} [CommRing R] (c : R) (f : ℤ → R) (lo hi
 theorem sum_Icc_neg {G : Type*} [AddCommGroup G] (f : ℤ → G) (lo hi : ℤ) :
     ∑ i ∈ Icc lo hi, -f i = -∑ i ∈ Icc lo hi, f i := by
   rw [Finset.sum_neg_distrib]
+
+/-! ## Causality: from the induction step (an SMT-discharged lemma obligation per spec function) to the theorem
+    (assumption A8b of DESIGN.md: the instances used by vc/dataflow.py are instances of these conclusions) -/
+
+theorem causality_of_step {α : Type} (T : (ℕ → α) → ℕ → α)
+    (step : ∀ a b n, (∀ i, i ≤ n → a i = b i) → (∀ m, m < n → T a m = T b m) → T a n = T b n) :
+    ∀ a b n, (∀ i, i ≤ n → a i = b i) → T a n = T b n := by
+  intro a b n
+  induction n using Nat.strong_induction_on with
+  | _ n ih =>
+    intro h
+    exact step a b n h (fun m hm => ih m hm (fun i hi => h i (le_trans hi (le_of_lt hm))))
+
+/-- two spec functions defined by a joint recursion (sin/cos, tan/sec², ...) -/
+theorem causality_of_step_pair {α : Type} (S C : (ℕ → α) → ℕ → α)
+    (step : ∀ a b n, (∀ i, i ≤ n → a i = b i) → (∀ m, m < n → S a m = S b m ∧ C a m = C b m) → S a n = S b n ∧ C a n = C b n) :
+    ∀ a b n, (∀ i, i ≤ n → a i = b i) → S a n = S b n ∧ C a n = C b n := by
+  intro a b n
+  induction n using Nat.strong_induction_on with
+  | _ n ih =>
+    intro h
+    exact step a b n h (fun m hm => ih m hm (fun i hi => h i (le_trans hi (le_of_lt hm))))
+
+/-- two array arguments (CONV, QUOT, BFWF, the matrix Cauchy products) -/
+theorem causality_of_step₂ {α : Type} (T : (ℕ → α) → (ℕ → α) → ℕ → α)
+    (step : ∀ a b a' b' n, (∀ i, i ≤ n → a i = a' i ∧ b i = b' i) → (∀ m, m < n → T a b m = T a' b' m) → T a b n = T a' b' n) :
+    ∀ a b a' b' n, (∀ i, i ≤ n → a i = a' i ∧ b i = b' i) → T a b n = T a' b' n := by
+  intro a b a' b' n
+  induction n using Nat.strong_induction_on with
+  | _ n ih =>
+    intro h
+    exact step a b a' b' n h (fun m hm => ih m hm (fun i hi => h i (le_trans hi (le_of_lt hm))))
